@@ -41,7 +41,6 @@ type optabAST struct {
 	ImplRegs                 []string          // const identifiers
 	ImplRegVars              map[string]string // implreg const -> reg.<Var>
 	Sffx                     []string
-	SffxStrings              [][3]any // unused
 	SffxsStrings             []sffxsEntry
 	SffxsCls                 []string
 	SffxsClsSets             [][][2]int // per class (index+1 = code) the accepted arrays
